@@ -208,7 +208,8 @@ namespace vf
             FAIL = 1,
             SKIP = 2,
             CRASH = 3,
-            HANG = 4
+            HANG = 4,
+            SLOW = 5  // overall budget exhausted while the case was still making progress: inconclusive, never a violation
         };
         struct Outcome
         {
@@ -244,6 +245,11 @@ namespace vf
             }
         };
 
+        inline char *contextPage()
+        {
+            static char *page = (char *)mmap(nullptr, 4096, PROT_READ | PROT_WRITE, MAP_SHARED | MAP_ANONYMOUS, -1, 0);
+            return page;
+        }
         struct Settings
         {
             std::set<std::string> known;
@@ -261,6 +267,9 @@ namespace vf
             c.known = &st.known;
             c.render = render;
             c.tier = st.tier;
+            c.ctxBuf = contextPage();
+            c.progress = (volatile long *)(contextPage() + 512);
+            c.fired = (volatile long *)(contextPage() + 520);
             Src s(b.data(), b.size());
             try
             {
@@ -438,6 +447,47 @@ namespace vf
             return done;
         }
 
+        // Watchdog for fork-per-case children: kills on stall (no progress for `stall` seconds, or no return `stall` seconds
+        // after the termination condition fired) -> hang; kills at `hard` seconds while still progressing -> slow.
+        inline int waitWithProgress(pid_t pid, double stall, double hard, bool &hung, bool &slow)
+        {
+            volatile long *progress = (volatile long *)(contextPage() + 512);
+            volatile long *fired = (volatile long *)(contextPage() + 520);
+            double t0 = now(), lastChange = t0, firedAt = 0;
+            long last = *progress;
+            int wst = 0;
+            hung = slow = false;
+            useconds_t nap = 200;
+            for (;;)
+            {
+                pid_t r = waitpid(pid, &wst, WNOHANG);
+                if (r == pid)
+                    return wst;
+                if (r < 0)
+                    return -1;
+                double t = now();
+                if (*fired && firedAt == 0)
+                    firedAt = t;
+                if (*progress != last && !*fired)
+                {
+                    last = *progress;
+                    lastChange = t;
+                }
+                bool stalled = *fired ? (t - firedAt > stall) : (t - lastChange > stall);
+                if (stalled || t - t0 > hard)
+                {
+                    hung = stalled;
+                    slow = !stalled;
+                    kill(pid, SIGKILL);
+                    waitpid(pid, &wst, 0);
+                    return wst;
+                }
+                usleep(nap);
+                if (nap < 20000)
+                    nap *= 2;
+            }
+        }
+
         inline int waitWithTimeout(pid_t pid, double timeout, bool &timedOut)
         {
             double t0 = now();
@@ -471,6 +521,9 @@ namespace vf
             std::string err = st.workdir + "/" + st.tag + ".single.err";
             unlink(res.c_str());
             fflush(nullptr);
+            contextPage()[0] = 0;
+            *(volatile long *)(contextPage() + 512) = 0;
+            *(volatile long *)(contextPage() + 520) = 0;
             pid_t pid = fork();
             if (pid == 0)
             {
@@ -487,16 +540,31 @@ namespace vf
                     exit(0);  // lets LeakSanitizer run; a leak overrides the exit code with 77
                 _exit(0);
             }
-            bool to = false;
-            int wst = waitWithTimeout(pid, timeout, to);
+            bool to = false, slow = false;
+            Config cfgw = config();
+            int wst = waitWithProgress(pid, timeout, cfgw.hardTimeout > 0 ? cfgw.hardTimeout : 6 * timeout, to, slow);
             Outcome o;
             bool have = readOutcome(res, o);
+            if (slow)
+            {
+                o = Outcome();
+                o.st = SLOW;
+                o.key = std::string("slow") + (contextPage()[0] ? std::string("/") + contextPage() : "");
+                o.msg = "overall time budget exhausted while the case was still evaluating its termination condition (inconclusive)";
+                return o;
+            }
             if (to)
             {
                 o = Outcome();
                 o.st = HANG;
-                o.key = "hang";
+                o.key = std::string("hang") + (contextPage()[0] ? std::string("/") + contextPage() : "");
                 o.msg = "no return within watchdog";
+                if (st.known.count(o.key))
+                {
+                    o.st = SKIP;
+                    o.knownHits[o.key]++;
+                    o.msg = "known:" + o.key;
+                }
                 return o;
             }
             bool cleanExit = WIFEXITED(wst) && WEXITSTATUS(wst) == 0;
@@ -509,9 +577,12 @@ namespace vf
             c.consumed = have ? o.consumed : b.size();
             c.text = have ? o.text : "";
             crashKey(slurp(err), wst, c);
+            if (c.key.compare(0, 11, "san/signal-") == 0 && contextPage()[0])
+                c.key += std::string("/") + contextPage();
             if (st.known.count(c.key))
             {
                 c.st = SKIP;
+                c.knownHits[c.key]++;
                 c.msg = "known:" + c.key;
             }
             return c;
@@ -658,7 +729,8 @@ namespace vf
             fd.origLen = b.size();
             fd.confirmed = true;
             bool cheap = timeout <= 30;
-            Bytes sm = shrink(b, first, st, timeout, cheap ? 600 : 120, cheap ? 60 : 120, fd.shrinkAttempts);
+            // a hanging case costs a full watchdog period per attempt: keep it as it is
+            Bytes sm = first.st == HANG ? b : shrink(b, first, st, timeout, cheap ? 600 : 60, cheap ? 60 : 90, fd.shrinkAttempts);
             fd.shrunkLen = sm.size();
             Outcome fin = runSingle(sm, st, true, timeout);
             if (!sameFailure(first, fin))
@@ -908,7 +980,12 @@ namespace vf
                     Outcome o = runSingle(b, st, render, cfg.caseTimeout);
                     agg.evaluations++;
                     agg.merge(o);
-                    if (o.st == OK || o.st == SKIP)
+                    if (o.st == SLOW)
+                    {
+                        agg.hangsInconclusive++;
+                        agg.cls["inconclusive:" + o.key]++;
+                    }
+                    else if (o.st == OK || o.st == SKIP)
                     {
                         if (o.st == SKIP)
                             agg.skipped++;
@@ -1079,7 +1156,7 @@ namespace vf
             {
                 Bytes b = readBytes(args.pos[i]);
                 Outcome o = runSingle(b, st, false, cfg.caseTimeout);
-                const char *names[] = {"PASS", "FAIL", "SKIP", "CRASH", "HANG"};
+                const char *names[] = {"PASS", "FAIL", "SKIP", "CRASH", "HANG", "SLOW"};
                 printf("VERDICT %s %s key=%s\n", names[o.st], args.pos[i].c_str(), o.key.c_str());
                 if (o.st == FAIL || o.st == CRASH || o.st == HANG)
                     rc = 1;
